@@ -140,7 +140,7 @@ Inductive event :=
 | EDue (v : Z)
 | ENext (v : Z)
 | EFire (i : nat) (cbtok : nat) (at_now : Z) (due : Z) (sid : Z) (armed_at : Z) (req : Z)
-| EEntry (rep : Z) (due_in : Z) (act : bool)   (* at callback entry: repeat in force, due-in, active *)
+| EEntry (rep : Z) (due_in : Z) (act : bool) (closing : bool)   (* at callback entry: repeat in force, due-in, active, closing *)
 | EPass (ctr : Z)
 | EActive (l : list bool).
 
@@ -202,7 +202,7 @@ Fixpoint fire (fuel : nat) (s : tstate) (beh : nat -> list op) (cnt : nat)
           let ev := EFire i (match t_cb t with Some c => c | None => O end)
                           (now s0) (t_timeout t) (t_sid t) (g_at t) (g_req t) in
           let s1 := fst (timer_again s0 i) in
-          let en := EEntry (t_repeat (get s1 i)) (timer_due_in s1 i) (t_active (get s1 i)) in
+          let en := EEntry (t_repeat (get s1 i)) (timer_due_in s1 i) (t_active (get s1 i)) (t_closing (get s1 i)) in
           let '(s2, evs) := apis s1 (beh cnt) in
           let '(s3, evs', cnt') := fire f s2 beh (S cnt) in
           (s3, ev :: en :: evs ++ evs', cnt')
